@@ -49,6 +49,16 @@ def top_key(top):
 # ---------------------------------------------------------------------------
 
 
+def _big_frame(fn, reg, top, tier):
+    return fn(reg, top, tier=tier)
+
+
+# CPython 3.12 keeps interpreter frames in 16 KB data-stack chunks that are mmap'ed/munmap'ed whenever the frame stack
+# crosses a chunk boundary; the engine's deep recursion can sit on such a boundary (20-100x slower generation in
+# forked workers).  One frame with a huge declared stack size makes CPython allocate a single big chunk up front.
+_big_frame.__code__ = _big_frame.__code__.replace(co_stacksize=150_000)
+
+
 def process_top(job):
     prop, key, tier, seed, inner_procs, timeout_ms = job
     from . import contracts as C
@@ -66,7 +76,7 @@ def process_top(job):
         custom = getattr(top, 'extra', {}).get('custom')
         if custom is not None:
             return custom(top, out, tier, seed)
-        res = vcgen.verify(C.REG, top, tier=tier)
+        res = _big_frame(vcgen.verify, C.REG, top, tier)
         out['gen_s'] = time.time() - t0
         out['paths'] = res.paths
         out['normal_paths'] = res.normal_paths
@@ -90,6 +100,8 @@ def process_top(job):
                 except Exception as ex:  # noqa: BLE001
                     rr = {'outcome': 'error', 'detail': repr(ex)}
                 oc = rr.get('outcome', 'error')
+                if oc == 'violated' and all(str(f).startswith(('exc#AttributeError', 'exc#TypeError', 'exc#NameError')) for f in rr.get('failed') or ['x']):
+                    oc = 'error'  # only witnesses the stub environment (same rule as replay.confirms)
                 xc[oc] = xc.get(oc, 0) + 1
                 if oc == 'violated' and len(xc['failed']) < 3:
                     xc['failed'].append({'failed': rr.get('failed'), 'state': R.to_jsonable(r['cex']), 'exception': rr.get('exception')})
